@@ -348,17 +348,17 @@ example : ackLe (some 3) (some 3) ∧ ackLe none (some 0) := by simp [ackLe]
   the model's errors as the Python exception classes (`Bodies.liftA`). -/
 
 theorem body_alarmtime_acknowledged (a : AlarmTime) :
-    Gen.BodiesAlarm.AlarmTime_acknowledged (Bodies.awareO a.alarm.acknowledged) (Bodies.awareO a.lastAck) =
+    Gen.BodiesAlarm.AlarmTime_acknowledged (alarm_acknowledged := Bodies.awareO a.alarm.acknowledged) (last_ack := Bodies.awareO a.lastAck) =
       .ok (Bodies.awareO a.acknowledged) :=
   Bodies.AlarmTime_acknowledged_eq a
 
 theorem body_alarmtime_trigger (a : AlarmTime) :
-    Gen.BodiesAlarm.AlarmTime_trigger (Bodies.awareO a.snooze) a.trig toDatetime = Bodies.liftA a.trigger :=
+    Gen.BodiesAlarm.AlarmTime_trigger (snooze_until := Bodies.awareO a.snooze) (trigger_raw := a.trig) (to_datetime := toDatetime) = Bodies.liftA a.trigger :=
   Bodies.AlarmTime_trigger_eq a
 
 theorem body_alarmtime_is_active (a : AlarmTime) :
-    Gen.BodiesAlarm.AlarmTime_is_active (Bodies.awareO a.alarm.acknowledged) (Bodies.awareO a.lastAck)
-        (Bodies.awareO a.snooze) a.trig toDatetime = Bodies.liftA a.isActive :=
+    Gen.BodiesAlarm.AlarmTime_is_active (alarm_acknowledged := Bodies.awareO a.alarm.acknowledged) (last_ack := Bodies.awareO a.lastAck)
+        (snooze_until := Bodies.awareO a.snooze) (trigger_raw := a.trig) (to_datetime := toDatetime) = Bodies.liftA a.isActive :=
   Bodies.AlarmTime_is_active_eq a
 
 /-- `Alarms.active`: the comprehension `[t for t in self.times if t.is_active()]` (its list and the
